@@ -136,10 +136,26 @@ structure InitOK (rings : Adj) (db0 : List Nat) (c : Ctx) (levels : List Level) 
   size : c.size = (c.rings.map (·.2.length)).sum / 2
   lv : ∀ l ∈ levels, ∃ e0, l = [e0] ∧ StartOK c db0 (pe e0) ∧ e0.atom ∈ nb c c.start ∧
     (e0.bond = 1 ∨ e0.bond = 2) ∧ (e0.bond = 2 → c.db.contains e0.atom = false)
+  /-- several initial levels: the start atom is not in `double_bonded`, the levels lead to different neighbours by
+      bonds of one order -/
+  cross : levels.Pairwise fun l l' => db0.contains c.start = false ∧
+    ∀ e e', l = [e] → l' = [e'] → e.atom ≠ e'.atom ∧ e.bond = e'.bond
 
 theorem nbr_of_mem {rings : Adj} (G : GraphOK rings) {s : Nat} {ms : List Nat} (h : (s, ms) ∈ rings) :
     nbr rings s = ms := by
   simp [nbr, lookup_of_mem_nodup G.keys h]
+
+theorem levels_pairwise {ms : List Nat} (hnd : ms.Nodup) (s b : Nat) (P : Prop) (hP : P) :
+    ((ms.map fun x => [(⟨x, s, b, some 0⟩ : Entry)]).reverse).Pairwise fun l l' => P ∧
+      ∀ e e', l = [e] → l' = [e'] → e.atom ≠ e'.atom ∧ e.bond = e'.bond := by
+  rw [List.pairwise_reverse, List.pairwise_map]
+  refine (List.nodup_iff_pairwise_ne.1 hnd).imp ?_
+  intro x y hxy
+  refine ⟨hP, ?_⟩
+  intro e e' he he'
+  simp only [List.cons.injEq, and_true] at he he'
+  subst he he'
+  exact ⟨fun h => hxy h.symm, rfl⟩
 
 theorem initial_ok {rings : Adj} (G : GraphOK rings) {db0 : List Nat} {c : Ctx} {levels : List Level}
     (h : initial rings db0 [] = .ok (c, levels)) : InitOK rings db0 c levels := by
@@ -156,7 +172,7 @@ theorem initial_ok {rings : Adj} (G : GraphOK rings) {db0 : List Nat} {c : Ctx} 
       injection h with hc hlv
       subst hc hlv
       have hnb : nbr rings s = f :: tl := by simp [nbr, hl]
-      refine ⟨rfl, rfl, rfl, ?_⟩
+      refine ⟨rfl, rfl, rfl, ?_, by simp⟩
       intro l hl'
       simp only [List.mem_singleton] at hl'
       subst hl'
@@ -174,7 +190,8 @@ theorem initial_ok {rings : Adj} (G : GraphOK rings) {db0 : List Nat} {c : Ctx} 
       have hpred := List.find?_some hfind
       simp only [List.contains_nil, Bool.not_false, Bool.and_true, beq_iff_eq] at hpred
       have hnb := nbr_of_mem G hmem
-      refine ⟨rfl, rfl, rfl, ?_⟩
+      have hms : ms.Nodup := hnb ▸ G.nodup s
+      refine ⟨rfl, rfl, rfl, ?_, levels_pairwise hms s 1 _ (by simp)⟩
       · intro l hl'
         simp only [List.mem_reverse, List.mem_map] at hl'
         obtain ⟨x, hx, rfl⟩ := hl'
@@ -193,7 +210,8 @@ theorem initial_ok {rings : Adj} (G : GraphOK rings) {db0 : List Nat} {c : Ctx} 
         have hpred := List.find?_some hfind
         simp only [beq_iff_eq] at hpred
         have hnb := nbr_of_mem G hmem
-        refine ⟨rfl, rfl, rfl, ?_⟩
+        have hms : ms.Nodup := hnb ▸ G.nodup s
+        refine ⟨rfl, rfl, rfl, ?_, levels_pairwise hms s 1 _ (by simp)⟩
         · intro l hl'
           simp only [List.mem_reverse, List.mem_map] at hl'
           obtain ⟨x, hx, rfl⟩ := hl'
@@ -211,7 +229,8 @@ theorem initial_ok {rings : Adj} (G : GraphOK rings) {db0 : List Nat} {c : Ctx} 
           injection h with hc hlv
           subst hc hlv
           have hnb : nbr ((s, ms) :: tl) s = ms := nbr_of_mem G List.mem_cons_self
-          · refine ⟨rfl, rfl, rfl, ?_⟩
+          · have hms : ms.Nodup := hnb ▸ G.nodup s
+            refine ⟨rfl, rfl, rfl, ?_, levels_pairwise hms s 2 _ (by simp)⟩
             intro l hl'
             simp only [List.mem_reverse, List.mem_map] at hl'
             obtain ⟨x, hx, rfl⟩ := hl'
